@@ -258,4 +258,70 @@ theorem C05_marks_never_in_base_lookup (c : Ctx) (r : RegCtx) (gs : List String)
       simp only [C05.hit, Bool.not_true, Bool.and_false, decide_eq_false_iff_not] at this
       exact this (sub2 g hg)
 
+/-- every cell of a generated pair lists only glyphs of that pair -/
+theorem cellsOf_sub (c : Ctx) (marks : Option (List String)) (im : Bool) (p0 sp : KPair) (g1 g2 : String)
+    (h : sp ∈ cellsOf c marks im p0 g1 g2) : ∀ x ∈ sp.glyphs, x ∈ p0.glyphs := by
+  unfold cellsOf at h
+  obtain ⟨h, _⟩ := mem_filter.mp h
+  obtain ⟨x, hx0, rfl⟩ := mem_map.mp h
+  obtain ⟨lst, hlst, hx1⟩ := mem_flatMap.mp hx0
+  obtain ⟨p, hp, hxp⟩ := mem_flatMap.mp hx1
+  obtain ⟨m1, _, hm1⟩ := pairLists_sub [p0] marks im lst hlst
+  rw [hm1] at hp
+  simp only [listOf, mem_flatMap, mem_singleton] at hp
+  obtain ⟨p0', hp0', hp⟩ := hp
+  rw [hp0'] at hp
+  obtain ⟨_, _, _, s1, s2, _⟩ := σ_sound m1 p0 p hp
+  obtain ⟨_, _, c1, c2⟩ := cell_sides c p x.1 x.2 hxp
+  intro y hy
+  simp only [KPair.glyphs, mem_append] at hy ⊢
+  rcases hy with hy | hy
+  · exact Or.inl (s1 y (c1 y hy))
+  · exact Or.inr (s2 y (c2 y hy))
+
+/-- a sufficient condition for `cellClean` at the granularity of the whole determining rule (no cell computation): the
+    glyphs of the determining generated pair do not mix bidi types R and L, hold no bidi-L glyph when the script is
+    right-to-left, and the two glyphs are not both neutral when the script is right-to-left -/
+theorem cellClean_of_rule (c : Ctx) (gs : List String) (groups : List (String × List String)) (kerning : List (String × String × Q))
+    (q : Q) (marks : Option (List String)) (im : Bool) (s g1 g2 : String)
+    (h : ∀ p0, detPair gs groups kerning q g1 g2 = some p0 →
+      ¬(p0.glyphs.any c.bidiR.contains = true ∧ p0.glyphs.any c.bidiL.contains = true) ∧
+      (c.dir s = "RTL" → p0.glyphs.any c.bidiL.contains = false))
+    (hn : c.dir s = "RTL" → ¬(c.neutral g1 = true ∧ c.neutral g2 = true)) :
+    cellClean c gs groups kerning q marks im s g1 g2 = true := by
+  unfold cellClean
+  cases hd : detPair gs groups kerning q g1 g2 with
+  | none => rfl
+  | some p0 =>
+    obtain ⟨hmix, hL⟩ := h p0 hd
+    simp only [Bool.and_eq_true, all_eq_true, Bool.not_eq_true']
+    constructor
+    · intro sp hsp
+      have hsub := cellsOf_sub c marks im p0 sp g1 g2 hsp
+      have mono : ∀ (l : List String), sp.glyphs.any l.contains = true → p0.glyphs.any l.contains = true := by
+        intro l hl
+        simp only [any_eq_true] at hl ⊢
+        obtain ⟨x, hx, hc⟩ := hl
+        exact ⟨x, hsub x hx, hc⟩
+      constructor
+      · cases hR : sp.glyphs.any c.bidiR.contains with
+        | false => rfl
+        | true =>
+          cases hLL : sp.glyphs.any c.bidiL.contains with
+          | false => rfl
+          | true => exact absurd ⟨mono _ hR, mono _ hLL⟩ hmix
+      · cases hrtl : (c.dir s == "RTL") with
+        | false => rfl
+        | true =>
+          cases hLL : sp.glyphs.any c.bidiL.contains with
+          | false => rfl
+          | true =>
+            have := hL (by simpa using hrtl)
+            rw [mono _ hLL] at this; cases this
+    · cases hrtl : (c.dir s == "RTL") with
+      | false => rfl
+      | true =>
+        have := hn (by simpa using hrtl)
+        cases h1 : c.neutral g1 <;> cases h2 : c.neutral g2 <;> simp_all
+
 end Ufo2ft.C05
